@@ -198,7 +198,17 @@ RULE = ("one case = one object and its re-parse.  build stream: class x subset o
         "non-trivial = at least one structured field with a record, or any malformed/text case")
 TRUSTED = ["model coq/Deb822/Multivalued.v is a hand transcription of _multivalued.__init__/get_as_string, "
            "Deb822._dump_format, PdiffIndex/Release._fixed_field_lengths/_get_size_field_length and "
-           "Release.set_size_field_behavior; tied to the code only by this correspondence",
+           "Release.set_size_field_behavior; besides this correspondence, the control flow of get_as_string, of the "
+           "two _fixed_field_lengths/_get_size_field_length, of set_size_field_behavior, of _multivalued.__init__ / "
+           "validate_input and of the inherited __setitem__ / is_single_line / is_multi_line is regenerated from the "
+           "source on every run (coq/Gen/TrMvLengths.v, TrMultivalued.v) and proved equal to the model functions on all "
+           "inputs (coq/Props/C12Tie.v); Deb822._dump_format and the edits are tied by the correspondence only",
+           "for the tie: harness/py2coq.py's rendering of each construct, the types and renderings in TR_MODULE / "
+           "TR_MODULE_LENGTHS, coq/Lib/Tr.v, the primitives of coq/Deb822/MvTrPrims.v (the object as an ordered "
+           "case-insensitive mapping; what hasattr/iteration/item[x]/count/splitlines do on a str, a mapping, a list; "
+           "str() of a value as the identity; the bound method `updater_method` as 'which method of which entry'), the "
+           "class dispatch of self._fixed_field_lengths (coq/Deb822/MvTrDispatch.v; AttributeError = kind OtherError, "
+           "Module.catches), self.size_field_behavior read as the private attribute",
            "the split of a text into (field, raw value) pairs (Deb822._internal_parser) is NOT modelled here: the "
            "model's parse stage starts from Deb822(text).items() as observed (C02 owns that parser); the theorem "
            "C12_paragraph_reparse is stated from the pairs MvProofs.spec_raw and says so",
@@ -231,6 +241,13 @@ def _tables():
 def _size(rng):
     n = rng.choice([1, 1, 2, 3, 5, 7, 10, 15, 16, 16, 17, 19])
     s = str(rng.randrange(10 ** (n - 1), 10 ** n)) if n > 1 else str(rng.randrange(10))
+    r = rng.random()
+    if r < 0.06:
+        s = "0" * rng.randint(1, 4) + s       # a size token is text: the column is as wide as the longest TOKEN
+    elif r < 0.09:
+        s = "+" + s
+    elif r < 0.11:
+        s = s + "_0"
     return s
 
 
@@ -238,7 +255,7 @@ def _token(rng, sub):
     r = rng.random()
     if sub == "size" and r < 0.85:
         s = _size(rng)
-        return int(s) if rng.random() < 0.3 else s
+        return int(s) if rng.random() < 0.3 and s.isdigit() and not (len(s) > 1 and s[0] == "0") else s
     if r < 0.35:
         return "".join(rng.choice(HEX) for _ in range(rng.choice([1, 4, 8, 8, 32])))
     if r < 0.9:
@@ -580,6 +597,18 @@ def _apply_edit(p, e, plainrec):
         raise RuntimeError("unknown edit %r" % (op,))
 
 
+def _bad_behaviour_first(obj, case):
+    """On a Release paragraph, for every seventh case (chosen from the case itself): an illegal size_field_behavior
+    is assigned first and refused (ValueError); the refusal must leave the object as it was."""
+    if case["cls"] != "Release" or (len(case["text"] or "") + len(case.get("build") or [])) % 7 != 0:
+        return
+    for bad in ("Dak", "", None, "apt", 7):
+        try:
+            obj.size_field_behavior = bad
+        except ValueError:
+            pass
+
+
 def run_impl(case):
     from debian import deb822
     K = getattr(deb822, case["cls"])
@@ -587,6 +616,7 @@ def run_impl(case):
     dumps = []
     if case["build"] is not None:
         p = K()
+        _bad_behaviour_first(p, case)
         if case["behav"] is not None:
             try:
                 p.size_field_behavior = case["behav"]
@@ -613,6 +643,7 @@ def run_impl(case):
         text = dumps[-1]
     raw = [[k, v] for k, v in deb822.Deb822(text).items()]
     q = K(text)
+    _bad_behaviour_first(q, case)
     if case["behav"] is not None:
         try:
             q.size_field_behavior = case["behav"]
@@ -773,3 +804,187 @@ def describe(case, obs):
                          "records of non-empty whitespace-free values): the dump succeeds and is the documented text "
                          "with the size column right-aligned; q holds the same records in the same order and "
                          "q.dump() equals the last dump - for every subset of the class's structured fields being present"}
+
+
+# ---------------------------------------------------------------------------
+# TIE BY REGENERATION (DESIGN §3.1b): the control flow of the writer (_multivalued.get_as_string), of the two
+# _fixed_field_lengths properties with their helpers (PdiffIndex, Release) and of the reader (_multivalued.__init__ with
+# Deb822.__setitem__ / _multivalued.validate_input / Deb822.is_single_line / is_multi_line) is regenerated from the working
+# tree by harness/py2coq.py into coq/Gen/TrMvLengths.v and coq/Gen/TrMultivalued.v; coq/Deb822/MvTie.v proves the
+# regenerated functions equal to the model functions of coq/Deb822/Multivalued.v on all inputs; statements:
+# coq/Props/C12Tie.v.  Primitives: coq/Deb822/MvTrPrims.v; the dynamic dispatch of `self._fixed_field_lengths` on the
+# class of the object: coq/Deb822/MvTrDispatch.v (between the two generated files).
+#
+# The object is the model's `para`; its class is the leading Coq parameter `c` (self._multivalued_fields = table_of c, the
+# regenerated tables of Gen/MvTables.v); `ci` = the mappings inside are Deb822Dicts (True) or plain dicts; `sfb` = the
+# value of Release's private attribute __size_field_behavior.  Values of fields are dynamic (`fvalue`: str / one mapping /
+# a list of mappings): the operations the code applies to them are primitives that say what each shape does.
+from harness import py2coq as _P   # noqa: E402
+
+TIE_FILE = "Props/C12Tie.v"
+
+_LS = ("list", "str")
+_CLS = ("coq", "cls")
+_PARA = ("coq", "para")
+_FV = ("coq", "fvalue")
+_ITEM = ("coq", "trp_item")      # (= the model's `item`; the code has a VARIABLE named item)
+_REC = ("coq", "record")
+_TABLE = ("coq", "trp_table")
+_LENS = ("coq", "trp_lengths")
+_SD = ("coq", "trp_sizedict")
+_UPD = ("coq", "trp_updater")
+_PAIRS = ("list", ("tuple", "str", "str"))
+
+
+def _lit(src):
+    return ("literal", src, "tt")
+
+
+def _kw(call, names):
+    call.kw = list(names)
+    return call
+
+
+def _selfm(coq, qual, args, ret):
+    c = _P.Call(coq, args, ret)
+    c.selfmethod = qual
+    return c
+
+
+def _stprim(coq, args, ret):
+    c = _P.Call(coq, args, ret)
+    c.stateprim = True
+    return c
+
+
+# what both generated modules use: the object, its values, the class table, the {field: {"size": n}} dicts
+_COMMON_CALLS = {
+    "<trp_table>.__contains__": _P.Call("trp_table_contains", [_TABLE, "str"], "bool"),
+    "<trp_table>.__getitem__": _P.Call("trp_table_getitem", [_TABLE, "str"], _LS, True),
+    "<trp_table>.__iter__": _P.Call("trp_table_keys", [_TABLE], _LS),
+    "<trp_table>.items": _P.Call("trp_table_items", [_TABLE], ("list", ("tuple", "str", _LS))),
+    "<para>.__contains__": _P.Call("trp_para_contains", [_PARA, "str"], "bool"),
+    "<para>.__getitem__": _P.Call("trp_para_getitem", [_PARA, "str"], _FV, True),
+    "hasattr": _P.Call("trp_hasattr_keys", [_FV, _lit("'keys'")], "bool"),
+    "<fvalue>.__iter__": _P.Call("trp_value_iter", [_FV], ("list", _ITEM)),
+    "<trp_item>.__getitem__": _P.Call("trp_item_getitem ci", [_ITEM, "str"], "str", True),
+    "str": _P.Call("trp_str", ["str"], "str"),
+    "max": _P.Call("trp_max", [("list", "Z")], "Z", True),
+    "<trp_sizedict>.{}": _kw(_P.Call("trp_sizedict_new", ["Z"], _SD), ["size"]),
+    "<trp_sizedict>.__getitem__": _P.Call("trp_sizedict_getitem", [_SD, "str"], "Z", True),
+    "<trp_lengths>.__getitem__": _P.Call("trp_lengths_getitem", [_LENS, "str"], _SD, True),
+    "<trp_lengths>.__setitem__": _P.Call("trp_lengths_setitem", [_LENS, "str", _SD], "unit", mutates=True),
+}
+_COMMON_CONSTS = {"{}": ("trp_lengths_empty", _LENS)}
+
+# --- module 1: PdiffIndex / Release ._fixed_field_lengths, ._get_size_field_length, Release.set_size_field_behavior
+# `self._get_size_field_length` names a different method in each class: Fun.calls.  `self.size_field_behavior` is the
+# property `property(lambda self: self.__size_field_behavior, set_size_field_behavior)`: its read is the private
+# attribute, the leading parameter `sfb` (spec author's claim); the setter is translated in method mode on that attribute.
+_GH_P = [("ci", "bool"), ("self", _PARA)]
+_GH_R = [("sfb", "str"), ("ci", "bool"), ("self", _PARA)]
+# self._multivalued_fields in a method of PdiffIndex / Release is that class's own table: the leading parameter `mvf`
+# of the two _fixed_field_lengths (the dispatcher MvTrDispatch.v passes table_of PdiffIndex / table_of Release; the tie
+# of each function holds for ANY table with distinct keys)
+_MVF = [("mvf", _TABLE)]
+_LOC_GSFL = {"lengths": ("list", "Z"), "item": _ITEM}
+_LOC_FFL = {"fixed_field_lengths": _LENS, "key": "str", "length": "Z"}
+_F_P_GSFL = _P.Fun("tr_pdiff_get_size_field_length", "PdiffIndex._get_size_field_length", [("key", "str")], "Z",
+                   locals=_LOC_GSFL, ghost=_GH_P, skip_first=True)
+_F_P_FFL = _P.Fun("tr_pdiff_fixed_field_lengths", "PdiffIndex._fixed_field_lengths", [], _LENS,
+                  locals=_LOC_FFL, ghost=_MVF + _GH_P, skip_first=True)
+_F_P_FFL.calls = {"self._get_size_field_length": _P.Call("tr_pdiff_get_size_field_length ci self", ["str"], "Z", True)}
+_F_R_GSFL = _P.Fun("tr_release_get_size_field_length", "Release._get_size_field_length", [("key", "str")], "Z",
+                   locals=_LOC_GSFL, ghost=_GH_R, skip_first=True)
+_F_R_FFL = _P.Fun("tr_release_fixed_field_lengths", "Release._fixed_field_lengths", [], _LENS,
+                  locals=_LOC_FFL, ghost=_MVF + _GH_R, skip_first=True)
+_F_R_FFL.calls = {"self._get_size_field_length": _P.Call("tr_release_get_size_field_length sfb ci self", ["str"], "Z", True)}
+_F_R_SET = _P.Fun("tr_set_size_field_behavior", "Release.set_size_field_behavior", [("value", "str")], "unit",
+                  skip_first=True, state=[("self.__size_field_behavior", "s_sfb", "str")])
+
+TR_MODULE_LENGTHS = _P.Module(
+    "TrMvLengths", "lib/debian/deb822.py",
+    funs=[_F_P_GSFL, _F_P_FFL, _F_R_GSFL, _F_R_FFL, _F_R_SET],
+    calls=dict(_COMMON_CALLS, **{
+        "<para>.@size_field_behavior": _P.Call("trp_size_field_behavior sfb", [_PARA], "str"),
+    }),
+    consts=dict(_COMMON_CONSTS, **{"self._multivalued_fields": ("mvf", _TABLE)}),
+    imports=["Gen.MvTables", "Deb822.Multivalued", "Deb822.MvTrPrims"])
+
+
+@extract.register("TrMvLengths")
+def _gen_tr_lengths(repo):
+    return _P.translate_module(repo, TR_MODULE_LENGTHS)
+
+
+# --- module 2: the writer and the reader
+# get_as_string: `self` is read only: a leading (ghost) parameter.  `self._fixed_field_lengths` is a property of SOME
+# classes: the attribute read is `self.__getattribute__('_fixed_field_lengths')` (Module.attr_hooks), rendered by the
+# dispatcher trp_fixed_field_lengths (MvTrDispatch.v): the translated property of PdiffIndex / Release, AttributeError
+# (kind OtherError) for a class that does not define it.  Module.catches: in the try bodies of this module the kind
+# OtherError is an AttributeError (the only producers are the dispatcher and the primitives of MvTrPrims.v that say so).
+_GH_W = [("c", _CLS), ("sfb", "str"), ("ci", "bool"), ("self", _PARA)]
+_F_GAS = _P.Fun("tr_get_as_string", "_multivalued.get_as_string", [("key", "str")], "str",
+                locals={"keyl": "str", "fd": "strbuf", "array": ("list", _ITEM), "order": _LS, "field_lengths": _LENS,
+                        "item": _ITEM, "x": "str", "raw_value": "str", "length": "Z", "value": "str"},
+                ghost=_GH_W, skip_first=True)
+_F_GAS.join_defines = True      # `array` (if/else) and `value` (except/else) are first assigned on every path
+
+# the reader: METHOD MODE on the object itself (one state variable `self` : para), ghost p0 = the mapping that
+# Deb822.__init__ leaves in the object for the constructor's (opaque, forwarded) arguments.
+_GH_I = [("c", _CLS), ("p0", _PARA)]
+_ST_SELF = [("self", "self", _PARA)]
+_F_SINGLE = _P.Fun("tr_is_single_line", "Deb822.is_single_line", [("s", _FV)], "bool")
+_F_MULTI = _P.Fun("tr_is_multi_line", "Deb822.is_multi_line", [("s", _FV)], "bool")
+_F_VALID = _P.Fun("tr_mv_validate_input", "_multivalued.validate_input", [("key", "str"), ("value", _FV)], "unit",
+                  ghost=_GH_I, skip_first=True, state=_ST_SELF)
+_F_SETITEM = _P.Fun("tr_mv_setitem", "Deb822.__setitem__", [("key", "str"), ("value", _FV)], "unit",
+                    ghost=_GH_I, skip_first=True, state=_ST_SELF)
+_F_INIT = _P.Fun("tr_mv_init", "_multivalued.__init__", [], "unit",
+                 locals={"field": "str", "fields": _LS, "contents": _FV, "updater_method": _UPD, "line": "str"},
+                 ghost=_GH_I, skip_first=True, state=_ST_SELF)
+_F_INIT.join_defines = True                     # updater_method is first assigned in both branches of the if
+_F_INIT.forwards_varargs = "Deb822.__init__"    # Deb822.__init__(self, *args, **kwargs)
+
+TR_MODULE = _P.Module(
+    "TrMultivalued", "lib/debian/deb822.py",
+    funs=[_F_GAS, _F_SINGLE, _F_MULTI, _F_VALID, _F_SETITEM, _F_INIT],
+    calls=dict(_COMMON_CALLS, **{
+        "<str>.lower": _P.Call("trp_lower", ["str"], "str"),
+        "<str>.rstrip": _P.Call("trp_rstrip", ["str", "str"], "str"),
+        "self.__getattribute__": _P.Call("trp_fixed_field_lengths c sfb ci self", [_lit("'_fixed_field_lengths'")], _LENS, True),
+        "Deb822.get_as_string": _P.Call("trp_base_get_as_string", [_PARA, "str"], "str", True),
+        # the reader
+        "<fvalue>.count": _P.Call("trp_value_count_lf", [_FV, _lit("'\\n'")], "Z", True),
+        "Deb822.is_single_line": _P.Call("tr_is_single_line", [_FV], "bool", True),
+        "self.is_multi_line": _P.Call("tr_is_multi_line", [_FV], "bool", True),
+        "super(_multivalued, self).validate_input": _stprim("trp_base_validate_input", ["str", _FV], "unit"),
+        "self.validate_input": _selfm("tr_mv_validate_input", "_multivalued.validate_input", ["str", _FV], "unit"),
+        "Deb822Dict.__setitem__": _stprim("trp_dict_setitem", [_lit("self"), "str", _FV], "unit"),
+        "<para>.__setitem__": _selfm("tr_mv_setitem", "Deb822.__setitem__", ["str", _FV], "unit"),
+        "Deb822.__init__": _stprim("trp_deb822_init", [_lit("self")], "unit"),
+        "<fvalue>.splitlines": _P.Call("trp_value_splitlines", [_FV], _LS, True),
+        "filter": _P.Call("trp_filter_none", [_lit("None"), _LS], _LS),
+        "<str>.split": _P.Call("trp_split", ["str"], _LS),
+        "zip": _P.Call("trp_zip", [_LS, _LS], _PAIRS),
+        "Deb822Dict": [_P.Call("trp_empty_mapping", [], _FV), _P.Call("trp_record_of_pairs", [_PAIRS], _REC)],
+        # updater_method = self[field].append / .update: WHICH bound method of WHICH entry (MvTrPrims.trp_updater); the
+        # call runs it on the object's state
+        "updater_method": _stprim("trp_call_updater updater_method", [_REC], "unit"),
+    }),
+    consts=dict(_COMMON_CONSTS, **{
+        "self._multivalued_fields": ("(table_of c)", _TABLE),
+        "self[field].append": ("(BoundAppend field)", _UPD),
+        "self[field].update": ("(BoundUpdate field)", _UPD),
+    }),
+    imports=["Gen.MvTables", "Deb822.Multivalued", "Deb822.MvTrPrims", "Gen.TrMvLengths", "Deb822.MvTrDispatch"])
+TR_MODULE.attr_hooks = {"self._fixed_field_lengths": ("self.__getattribute__", None)}
+TR_MODULE.catches = {"AttributeError": (("OtherError",), ())}
+# a value where an element of `array` / an iterable of items is expected; `[]` as a value
+TR_MODULE.coercions = [(_FV, _ITEM, "(trp_item_of_value %s)"), (_FV, ("list", _ITEM), "(trp_value_iter %s)"),
+                       ("nil", _FV, "(Multi [])")]
+
+
+@extract.register("TrMultivalued")
+def _gen_tr(repo):
+    return _P.translate_module(repo, TR_MODULE)
